@@ -204,7 +204,7 @@ Internal_LineOK ==
   Active => /\ L.harness = "" /\ L.dir \in {"produce", "fetch", "pool"}
             /\ L.dir = "produce" => \A r \in Range(L.in) : Canonical(r.key) /\ Canonical(r.value)
             /\ L.dir = "fetch" => LogOK(L)
-            /\ L.dir = "pool" => PoolRan(L)
+            /\ L.dir = "pool" /\ L.pool.errors = 0 => PoolRan(L)       \* a run without errors did exercise late reads
 Internal_DecodersAgree == Active /\ L.dir = "produce" => DecodersAgree(L)
 Internal_CrcRange      == Active /\ L.dir = "produce" => CrcRangesAgree(L)
 
